@@ -8,10 +8,10 @@ def prof(seed):
     k = seed % 3
     base = dict(p_stamp=0.55, p_head=0.55, p_always=0.15, p_flag=0.3, p_watch=0.05, p_dyn=0.1, top_bias=0.75)
     if k == 0:
-        return gen.profile(ntgt=(3, 6), ops=dict(m_stamp=8, edit_i=4, edit_r=3, build=6, force=1, rm=1, repeat=2, m_failfix=3), **base)
+        return gen.profile(ntgt=(3, 6), ops=dict(m_stamp=8, edit_i=4, edit_r=3, build=6, force=1, rm=1, repeat=2, m_failfix=3, m_stampflip=3, edit_back=2), **base)
     if k == 1:
         return gen.profile(ntgt=(4, 9), jmax=4, ops=dict(m_stamp=6, edit_i=3, edit_r=3, force=2, rm=2), **base)
-    return gen.profile(ntgt=(5, 10), steps=(10, 22), ops=dict(m_stamp=5, edit_i=3, edit_r=3, rm=2, doedit=1, m_failfix=3), **base)
+    return gen.profile(ntgt=(5, 10), steps=(10, 22), ops=dict(m_stamp=5, edit_i=3, edit_r=3, rm=2, doedit=1, m_failfix=3, m_stampflip=2, edit_back=2), **base)
 
 
 def stampy(a):
